@@ -821,16 +821,19 @@ def classify(case, res):
         else:
             var = c["d"]["variable"]
             if isinstance(var, dict) and "d" in var:
-                labels.append("val:var:" + "+".join(k for k in ("type", "compose") if k in var["d"]) or "val:var:plain")
+                labels.append("val:var:" + ("+".join(k for k in ("type", "compose") if k in var["d"]) or "plain"))
             else:
                 labels.append("val:var:non-dict")
     return labels
 
 
 def signature(case, failure):
-    head = failure.split(":")[0][:60] if failure else ""
-    return head + "|" + ",".join(e["k"] + ":" + (str(e.get("type")) if e["k"] == "var" else str(len(e.get("args", []))))
-                                 for e in case["chain"])
+    """one report per kind of failure (the text before the first colon, without the variant's name)"""
+    head = (failure or "").split(":")[0]
+    for w in ("Sequence ", "Compose "):
+        if head.startswith(w):
+            head = head[len(w):]
+    return head.split(" on {")[0][:80]
 
 
 def shrink(case):
